@@ -351,7 +351,7 @@ def run(col):
         return test
     core.run_property(col, t_std, budget(400, 8000, col.tier), tag='std')
     core.run_property(col, lambda: benchmachine.make_machine(col, pp, prof, Text(col)),
-                      budget(50, 800, col.tier), tag='bench', stateful_step_count=budget(25, 40, col.tier))
+                      budget(50, 800, col.tier), tag='bench', stateful_step_count=25 if col.tier == 'quick' else 40)
     try:
         from engines import programs
     except ImportError:
